@@ -42,8 +42,13 @@ def _universe():
     # fingerprint may be given with or without spaces)
     kn1, _ = K.pgpy_cert('ecdsa_p384b', uid=pgpy.PGPUID.new('Jo Ann Lee', comment='night shift', email='jo.ann@example.org'), created=K.T0 + 2100)
     kn2, _ = K.pgpy_cert('ecdsa_p521b', uid=pgpy.PGPUID.new('JoAnn Lee', comment='nights hift', email='joann@example.org'), created=K.T0 + 2200)
+    # F1: a key whose subkey OBJECT was afterwards also bound under another key (a rollover that keeps the old encryption subkey: new.add_subkey(old_sub)):
+    # the subkey object now names the other key as its parent, and still is a subkey of F1
+    kf1, _ = K.pgpy_cert('ecdsa_p521a', uid=pgpy.PGPUID.new('Eff One', email='f1@example.org'), created=K.T0 + 2500, subkeys=[('cv25519b', {KeyFlags.EncryptCommunications})])
+    kf2, _ = K.pgpy_cert('rsa2048a', uid=pgpy.PGPUID.new('Eff Two', email='f2@example.org'), created=K.T0 + 2600)
+    kf2.add_subkey(list(kf1.subkeys.values())[0], usage={KeyFlags.EncryptCommunications}, created=K.dt(K.T0 + 2700))
     return collections.OrderedDict([('A', ka.pubkey), ('B', kb.pubkey), ('C', kc), ('Dpub', kd.pubkey), ('Dsec', kd), ('E', ke), ('A2', ka2.pubkey), ('Epub', ke.pubkey),
-                                    ('S1', ks1.pubkey), ('S2', ks2.pubkey), ('N1', kn1.pubkey), ('N2', kn2.pubkey)]), (ka, kb, kc, kd, ke, ka2, ks1, ks2, kn1, kn2)
+                                    ('S1', ks1.pubkey), ('S2', ks2.pubkey), ('N1', kn1.pubkey), ('N2', kn2.pubkey), ('F1', kf1)]), (ka, kb, kc, kd, ke, ka2, ks1, ks2, kn1, kn2, kf1, kf2)
 
 
 def _short_id_collision(n1, n2):
@@ -142,7 +147,7 @@ class Prop(object):
     def units(self, tier, seed):
         u = []
         # (a) the clusters of keys that share identifiers, each explored to closure (the depth is only a safety cap)
-        for cl in (['A', 'B', 'C'], ['Dpub', 'Dsec', 'A'], ['A', 'B', 'E'], ['A', 'A2', 'B'], ['E', 'Epub', 'Dsec'], ['S1', 'S2', 'A'], ['N1', 'N2', 'A']):
+        for cl in (['A', 'B', 'C'], ['Dpub', 'Dsec', 'A'], ['A', 'B', 'E'], ['A', 'A2', 'B'], ['E', 'Epub', 'Dsec'], ['S1', 'S2', 'A'], ['N1', 'N2', 'A'], ['F1', 'A', 'B']):
             for i in range(len(cl)):
                 u.append(('bfs', {'first': i, 'blobs': False, 'depth': 14, 'names': cl}))
         # (b) the whole universe, depth-bounded
